@@ -10,6 +10,9 @@ import ChythonModel.Proofs.C06RingVec
 import ChythonModel.Proofs.C06SkinCycles
 import ChythonModel.Proofs.C06Arom
 import ChythonModel.Proofs.C06Mol
+import ChythonModel.Spec.CycleBasisMin
+import ChythonModel.Proofs.C06Exchange
+import ChythonModel.Proofs.C06Min
 /-!
 # C06 — ring perception returns a minimum cycle basis that ring marks agree with
 
@@ -135,6 +138,62 @@ example :
     let g : Adj := [(1, [2, 6, 4]), (2, [1, 3]), (3, [2, 4]), (4, [3, 5, 1]), (5, [4, 6]), (6, [5, 1])]
     checkSssr g [[1, 2, 3, 4], [1, 4, 5, 6]] = true ∧ checkSssr g [[1, 2, 3, 4], [2, 3, 4, 1]] = false ∧
     checkSssr g [[1, 2, 3, 4]] = false ∧ checkSssr g [[1, 2, 3, 4], [1, 3, 5, 6]] = false := by decide
+
+/-! ## minimality: the exchange criterion over GF(2) and the checker `checkMinimalWrt` -/
+
+/-- **exchange criterion (matroid greedy optimality over GF(2))**: `B` a list of weighted vectors; every member `(w, v)` of
+the family `F` is a GF(2) sum of members of `B` of weight `≤ w` (`SpanLE`). Then no independent `B'` drawn from `F` with as
+many members as `B` (i.e. no other basis of the same space taken from `F`) has smaller total weight than `B`. -/
+theorem exchange_criterion (B F : List WVec) (hB : Independent (B.map (·.2))) (hF : ∀ c ∈ F, SpanLE B c.1 c.2)
+    (B' : List WVec) (hsub : ∀ c ∈ B', c ∈ F) (hB' : Independent (B'.map (·.2))) (hlen : B'.length = B.length) :
+    totalLen B ≤ totalLen B' :=
+  exchange_minimal B F hB hF B' hsub hB' hlen
+
+/-- the executable membership test decides `SpanLE` on an independent `B` (sound for every `B`) -/
+theorem in_span_le_decides (B : List WVec) (w v : Nat) :
+    (inSpanLE B w v = true → SpanLE B w v) ∧
+    (Independent (B.map (·.2)) → SpanLE B w v → inSpanLE B w v = true) :=
+  ⟨inSpanLE_sound, fun hB h => inSpanLE_complete hB h⟩
+
+/-- **`checkMinimalWrt` is a proved checker**: if it accepts, `B` is minimum among the independent same-size sub-families
+of `F` -/
+theorem minimal_wrt_family (B F : List WVec) (hB : Independent (B.map (·.2))) (hc : checkMinimalWrt B F = true)
+    (B' : List WVec) (hsub : ∀ c ∈ B', c ∈ F) (hB' : Independent (B'.map (·.2))) (hlen : B'.length = B.length) :
+    totalLen B ≤ totalLen B' :=
+  checkMinimalWrt_sound B F hB hc B' hsub hB' hlen
+
+/-- … and it rejects nothing that is minimal: for independent `B` spanning `F` the checker accepts **iff** no independent
+same-size `B' ⊆ B ++ F` is lighter (so a rejection is a proved "not minimal", never a false alarm of the checker) -/
+theorem minimal_wrt_family_iff (B F : List WVec) (hB : Independent (B.map (·.2)))
+    (hspan : ∀ c ∈ F, Span (B.map (·.2)) c.2) :
+    checkMinimalWrt B F = true ↔
+      ∀ B' : List WVec, (∀ c ∈ B', c ∈ B ++ F) → Independent (B'.map (·.2)) → B'.length = B.length →
+        totalLen B ≤ totalLen B' :=
+  checkMinimalWrt_iff B F hB hspan
+
+/-- **what the verdict `minw=1` of the driver certifies**: a ring list accepted by `checkSssr` and by `checkMinimalHorton`
+has minimum total size among all independent ring lists of the same length drawn from Horton's candidate family -/
+theorem sssr_minimal_wrt_horton (g : Adj) (rings : List (List Nat)) (hc : checkSssr g rings = true)
+    (hm : checkMinimalHorton g rings = true) (R' : List (List Nat)) (hsub : ∀ r ∈ R', r ∈ hortonFamily g)
+    (hi' : Independent (R'.map (ringVec (edgeList g)))) (hlen : R'.length = rings.length) :
+    totalSize rings ≤ totalSize R' :=
+  sssr_minimal_wrt_horton_proof g rings (check_sssr_sound g rings hc).2.1 hm R' hsub hi' hlen
+
+/-- **minimum cycle basis, modulo Horton completeness** (`HortonComplete g`: the explicit, named, unproved hypothesis that
+some minimum cycle basis is drawn from `hortonFamily g`): under it an accepted ring list is a minimum cycle basis — its
+total size is ≤ that of *every* cycle basis of `g`. -/
+theorem sssr_minimum_of_horton_complete (g : Adj) (rings : List (List Nat)) (hH : HortonComplete g)
+    (hc : checkSssr g rings = true) (hm : checkMinimalHorton g rings = true) (R : List (List Nat))
+    (hR : IsCycleBasis g R) : totalSize rings ≤ totalSize R :=
+  sssr_minimum_of_horton_complete_proof g rings hH (check_sssr_sound g rings hc) hm R hR
+
+/-- non-vacuous: in bicyclo[2.2.0]hexane the two four-rings pass, the basis {four-ring, six-ring} is a cycle basis that the
+exchange checker rejects (the other four-ring of the family is not a sum of members of size ≤ 4) -/
+example :
+    let g : Adj := [(1, [2, 6, 4]), (2, [1, 3]), (3, [2, 4]), (4, [3, 5, 1]), (5, [4, 6]), (6, [5, 1])]
+    checkSssr g [[1, 2, 3, 4], [1, 4, 5, 6]] = true ∧ checkMinimalHorton g [[1, 2, 3, 4], [1, 4, 5, 6]] = true ∧
+    checkSssr g [[1, 2, 3, 4], [1, 2, 3, 4, 5, 6]] = true ∧
+    checkMinimalHorton g [[1, 2, 3, 4], [1, 2, 3, 4, 5, 6]] = false ∧ (hortonFamily g).length = 10 := by decide
 
 /-! ## `_connected_components` -/
 
